@@ -23,6 +23,11 @@ def gen_cases(rng, tier, drift):
     out = []
     for i in range(n):
         out.append(cc.gen_case(rng, errors=(i % 5 == 0), loads=True, join_timeouts=False, unordered=False))
+    for i in range(80 if tier == "quick" and not drift else 1200):
+        # oracle-only: Thread.is_alive() is a yield point too (a liveness test made after a timed wait sees a later moment than the wait did)
+        c = cc.gen_case(rng, errors=(i % 5 == 0), loads=(i % 2 == 0), join_timeouts=False, unordered=False)
+        c["alive_yield"] = True
+        out.append(c)
     return out
 
 
